@@ -285,7 +285,7 @@ pub fn constant_failures(body: &[Stmt]) -> Vec<&'static str> {
                 _ => Maybe,
             },
             // never folded: reads of cells, calls (ticks are calls), assignments
-            Expr::Deref(_) | Expr::Call(..) | Expr::Tick(..) | Expr::Assign(..) | Expr::Len(_) | Expr::Post(..) | Expr::Reduce(..) => NonConst,
+            Expr::Deref(_) | Expr::Call(..) | Expr::Tick(..) | Expr::Assign(..) | Expr::Len(_) | Expr::Post(..) | Expr::Sum(..) | Expr::Reduce(..) => NonConst,
             _ => Maybe,
         }
     }
@@ -295,7 +295,7 @@ pub fn constant_failures(body: &[Stmt]) -> Vec<&'static str> {
             kinds.push(k);
         }
     };
-    let mut judge = |c: Constness, fails: &dyn Fn(i64) -> bool, kind: &'static str, note: &mut dyn FnMut(&'static str)| match c {
+    let judge = |c: Constness, fails: &dyn Fn(i64) -> bool, kind: &'static str, note: &mut dyn FnMut(&'static str)| match c {
         Constness::Const(v) if fails(v) => note(kind),
         Constness::Maybe => note(kind),
         _ => {}
